@@ -120,14 +120,61 @@ func ctl(f func()) {
 	}
 }
 
-func buildPrefix() (p *chainx.Prefix) {
-	ctl(func() { p = buildPrefix0() })
+func buildPrefix(compressed bool) (p *chainx.Prefix) {
+	ctl(func() { p = buildPrefix0(compressed) })
 	return
 }
 
-func buildPrefix0() *chainx.Prefix {
-	return chainx.BuildPrefix("c11", params, prefixLen, func(h uint32, s *minichain.Spec, p *chainx.Prefix) {
+// gocoin selects the record format through package-level function variables when a
+// database with compressed records is opened and never switches back: within one process
+// every uncompressed scenario has to run before the first compressed one.
+var compressedSeen bool
+
+var thoroughTier bool // set from the command line before scenarios() is first called
+
+// prefixFor returns (building it on first use) the prefix directory for the scenario's record format.
+func prefixFor(sc scen) *chainx.Prefix {
+	if sc.compressed {
+		compressedSeen = true
+	} else if compressedSeen {
+		ev.HarnessError("scenario %s (plain records) after a compressed-record scenario in one process", sc.name)
+	}
+	if prefixes[sc.compressed] == nil {
+		if vsched.Active() == nil && *racePass == 0 {
+			prefixes[sc.compressed] = buildPrefix(sc.compressed)
+		} else {
+			prefixes[sc.compressed] = buildPrefix0(sc.compressed)
+		}
+	}
+	return prefixes[sc.compressed]
+}
+
+var prefixes = map[bool]*chainx.Prefix{}
+
+func removePrefixes() {
+	for _, p := range prefixes {
+		p.Remove()
+	}
+}
+
+func buildPrefix0(compressed bool) *chainx.Prefix {
+	name := "c11"
+	opts := minichain.Opts{Params: params}
+	if compressed {
+		name = "c11c"
+		opts.ChainOpts.CompressUTXO = true
+	}
+	return chainx.BuildPrefixOpts(name, opts, prefixLen, func(h uint32, s *minichain.Spec, p *chainx.Prefix) {
 		switch h {
+		case 106:
+			// 44 outputs of 3000 bytes: the snapshot is larger than two 64 KiB chunks, so that
+			// save() reaches its pacing / abort select and the writer goroutine has data queued
+			var o []reftx.Out
+			for i := 0; i < 44; i++ {
+				o = append(o, bigOut(1e8, 3000))
+			}
+			s.Txs = append(s.Txs, minichain.Spend([]OP{p.Cb[5]}, o))
+			s.Fees = 50e8 - 44e8
 		case 102, 103, 104:
 			// three funding transactions in the same bucket 0x42, 3 outputs each (+1 failing script)
 			m := minichain.Spend([]OP{p.Cb[h-101]}, []reftx.Out{o1(10e8), o1(10e8), o1(10e8), {Value: 10e8, Script: []byte{0x00}}})
@@ -152,10 +199,12 @@ type scen struct {
 	name   string
 	blocks func(p *chainx.Prefix) []*reftx.Block
 	// events: "b<i>" deliver block i, "idle", "hurry", "reopen"
-	events  []string
-	expect  string // results of the events under the default schedule (non-vacuity guard)
-	qb, tb  int    // deviation bound in the quick / thorough tier
-	horizon int
+	events     []string
+	compressed bool   // UTXO records in the compressed format (Memory.CompressUTXO)
+	paced      bool   // snapshot writing paced over UTXO_WRITING_TIME_TARGET (the default) instead of hurry mode: only then does save() look at the abort request between chunks
+	expect     string // results of the events under the default schedule (non-vacuity guard)
+	qb, tb     int    // deviation bound in the quick / thorough tier
+	horizon    int
 }
 
 func bigOut(v uint64, n int) reftx.Out {
@@ -171,7 +220,7 @@ func scenarios() []scen {
 	blk := func(p *chainx.Prefix, prev [32]byte, h uint32, tag byte, fees uint64, txs ...*reftx.Tx) *reftx.Block {
 		return minichain.Build(minichain.Spec{Prev: prev, Height: h, Tag: tag, Txs: txs, Fees: fees, CbValue: -1})
 	}
-	return []scen{
+	scs := []scen{
 		{name: "S1-commit-3tx-2in-valid", qb: 2, tb: 3, horizon: 4000, events: []string{"b0"}, expect: "b0=ok", blocks: func(p *chainx.Prefix) []*reftx.Block {
 			n := p.Named
 			// 3 x ~3 KB transactions: BuildTxListExt hashes them in several 4096-byte packs,
@@ -232,13 +281,13 @@ func scenarios() []scen {
 			good := blk(p, p.Tip, p.Height+1, 3, 0, g1)
 			return []*reftx.Block{bad, good}
 		}},
-		{name: "S4-snapshot-abort-by-next-block", qb: 1, tb: 2, horizon: 20000, events: []string{"b0", "idle", "b1", "idle", "hurry", "close"}, expect: "b0=ok,b1=ok", blocks: func(p *chainx.Prefix) []*reftx.Block {
+		{name: "S4-snapshot-abort-by-next-block", paced: true, qb: 1, tb: 2, horizon: 20000, events: []string{"b0", "idle", "b1", "idle", "hurry", "close"}, expect: "b0=ok,b1=ok", blocks: func(p *chainx.Prefix) []*reftx.Block {
 			n := p.Named
 			b0 := blk(p, p.Tip, p.Height+1, 4, 0, sp([]OP{n["F0.0"]}, []reftx.Out{o1(10e8)}))
 			b1 := blk(p, b0.Hash(), p.Height+2, 4, 0, sp([]OP{n["F1.0"]}, []reftx.Out{o1(10e8)}))
 			return []*reftx.Block{b0, b1}
 		}},
-		{name: "S4-snapshot-then-reorg-then-close", qb: 1, tb: 2, horizon: 20000, events: []string{"b0", "idle", "b1", "b2", "idle", "close"}, expect: "b0=ok,b1=ok,b2=ok", blocks: func(p *chainx.Prefix) []*reftx.Block {
+		{name: "S4-snapshot-then-reorg-then-close", paced: true, qb: 1, tb: 2, horizon: 20000, events: []string{"b0", "idle", "b1", "b2", "idle", "close"}, expect: "b0=ok,b1=ok,b2=ok", blocks: func(p *chainx.Prefix) []*reftx.Block {
 			n := p.Named
 			a1 := blk(p, p.Tip, p.Height+1, 5, 0, sp([]OP{n["F0.0"]}, []reftx.Out{o1(10e8)}))
 			b1 := blk(p, p.Tip, p.Height+1, 6, 0, sp([]OP{n["F0.0"], n["F2.1"]}, []reftx.Out{o1(20e8)}))
@@ -246,6 +295,21 @@ func scenarios() []scen {
 			return []*reftx.Block{a1, b1, b2}
 		}},
 	}
+	// the same histories on a database with compressed records (client option Memory.CompressUTXO):
+	// the commit workers and the undo writer then serialise through one package-level pool
+	for _, sc := range scs {
+		switch sc.name {
+		case "S1-commit-3tx-2in-valid", "S1-signatures-with-in-block-spend", "S2-commit-then-reorg-restores-from-undo-file", "S4-snapshot-abort-by-next-block":
+			if !thoroughTier && (sc.name == "S1-signatures-with-in-block-spend" || sc.name == "S2-commit-then-reorg-restores-from-undo-file") {
+				continue
+			}
+			c := sc
+			c.name += "/compressed-records"
+			c.compressed = true
+			scs = append(scs, c)
+		}
+	}
+	return scs
 }
 
 // ---- file effects are scheduling points; the visible-snapshot invariant ----
@@ -304,7 +368,7 @@ func checkVisibleSnapshot() {
 			return
 		}
 		off += n
-		rec := utxo.NewUtxoRecU(b[off : off+le])
+		rec := utxo.NewUtxoRec(b[off : off+le]) // format-dependent (plain / compressed) like the database itself
 		off += le
 		for vout, o := range rec.Outs {
 			if o != nil {
@@ -326,6 +390,11 @@ func checkVisibleSnapshot() {
 // runScenario executes one schedule of a scenario on a fresh copy of the prefix.
 func runScenario(p *chainx.Prefix, sc scen, blocks []*reftx.Block, choose vsched.Chooser) (*vsched.Sched, string, string) {
 	var s *chainx.Sess
+	vsched.Demotion = true
+	utxo.UTXO_WRITING_TIME_TARGET = 0
+	if sc.paced {
+		utxo.UTXO_WRITING_TIME_TARGET = 5 * time.Minute
+	}
 	ctl(func() { s = p.NewSession("c11") })
 	curSess, snapViol = s, ""
 	defer func() { curSess = nil }()
@@ -365,6 +434,11 @@ func runScenario(p *chainx.Prefix, sc scen, blocks []*reftx.Block, choose vsched
 	checkVisibleSnapshot()
 	if os.Getenv("C11_DEBUG") != "" {
 		fmt.Fprintln(os.Stderr, "DEBUG snapChecks", snapChecks, "snapViol", snapViol, "points", len(sch.Points))
+		if os.Getenv("C11_DEBUG") == "2" {
+			for i, pt := range sch.Points {
+				fmt.Fprintf(os.Stderr, "  %3d %-8s en=%v ch=%d %s\n", i, pt.Kind, pt.Enabled, pt.Chosen, pt.Desc)
+			}
+		}
 	}
 	errs := inBody
 	if snapViol != "" {
@@ -434,9 +508,21 @@ var (
 
 // racePassMain runs the scenario bodies natively (no scheduler): the race detector
 // then sees only the program's own synchronisation.
-func racePassMain(p *chainx.Prefix, scs []scen, iters int) {
+func racePassMain(scs []scen, iters int) {
+	// plain-record scenarios first, for all iterations; then the compressed ones (see compressedSeen)
+	for _, comp := range []bool{false, true} {
+		racePassMode(scs, iters, comp)
+	}
+	fmt.Fprintln(ev.Out, "racepass-done")
+}
+
+func racePassMode(scs []scen, iters int, comp bool) {
 	for it := 0; it < iters; it++ {
 		for _, sc := range scs {
+			if sc.compressed != comp {
+				continue
+			}
+			p := prefixFor(sc)
 			blocks := sc.blocks(p)
 			s := p.NewSession("c11r")
 			closed := false
@@ -461,7 +547,6 @@ func racePassMain(p *chainx.Prefix, scs []scen, iters int) {
 			s.Close()
 		}
 	}
-	fmt.Fprintln(ev.Out, "racepass-done")
 }
 
 func classify(sc scen, x *explore.Exec, expectObs string) *viol {
@@ -529,6 +614,7 @@ func workerMain(p *chainx.Prefix, sc scen) {
 
 func main() {
 	r := ev.Start("C11", "model_checking")
+	thoroughTier = r.Thorough()
 	minichain.Quiet()
 	utxo.UTXO_WRITING_TIME_TARGET = 0
 	_ = chain.AbortNow
@@ -544,20 +630,18 @@ func main() {
 	vos.Hook = fileHook
 	if *racePass > 0 {
 		vos.Hook = nil
-		p := buildPrefix0()
-		racePassMain(p, scenarios(), *racePass)
-		p.Remove()
+		racePassMain(scenarios(), *racePass)
+		removePrefixes()
 		os.Exit(0)
 	}
-	p := buildPrefix()
-	defer p.Remove()
+	defer removePrefixes()
 	scs := scenarios()
 
 	if *worker != "" {
 		for _, sc := range scs {
 			if sc.name == *worker {
-				workerMain(p, sc)
-				p.Remove()
+				workerMain(prefixFor(sc), sc)
+				removePrefixes()
 				os.Exit(0)
 			}
 		}
@@ -573,12 +657,13 @@ func main() {
 			if sc.name != rec.Replay.Scenario {
 				continue
 			}
+			p := prefixFor(sc)
 			blocks := sc.blocks(p)
 			run := func(ch vsched.Chooser) (*vsched.Sched, string, string) { return runScenario(p, sc, blocks, ch) }
 			def := explore.One(run, nil)
 			x := explore.One(run, rec.Replay.Choices)
 			v := classify(sc, x, def.Obs)
-			p.Remove()
+			removePrefixes()
 			if v == nil {
 				fmt.Fprintln(ev.Out, "replay: schedule passes; obs:", x.Obs)
 				os.Exit(0)
@@ -605,6 +690,7 @@ func main() {
 		if os.Getenv("C11_BOUND") != "" {
 			fmt.Sscan(os.Getenv("C11_BOUND"), &B)
 		}
+		p := prefixFor(sc)
 		blocks := sc.blocks(p)
 		run := func(ch vsched.Chooser) (*vsched.Sched, string, string) { return runScenario(p, sc, blocks, ch) }
 		def, tops := explore.TopLevel(run)
